@@ -653,7 +653,7 @@ func c17GenPred(rng *rand.Rand, depth int, pool []c17Call, direct bool) *c17Pred
 }
 
 func c17CellTok(rng *rand.Rand, x float64) string {
-	if x == math.Trunc(x) && rng.Intn(2) == 0 {
+	if x == math.Trunc(x) && math.Abs(x) < 1e15 && rng.Intn(2) == 0 {
 		return "i:" + itoa(int64(x))
 	}
 	return c17Ftok(x)
@@ -785,6 +785,10 @@ func (c17) Gen(rng *rand.Rand, tier string, idx int) Case {
 		n = 40
 	}
 	nullRate := []int{0, 0, 10, 25, 60}[rng.Intn(5)] // percent of cells that are NULL / absent / non-numeric
+	huge := rng.Intn(8) == 0
+	if huge {
+		c.Stat = append(c.Stat, "values-beyond-int64")
+	}
 	c.Stat = append(c.Stat, fmt.Sprintf("nullrate-%d", nullRate))
 	for i := 0; i < n; i++ {
 		g := groups[rng.Intn(len(groups))]
@@ -801,6 +805,10 @@ func (c17) Gen(rng *rand.Rand, tier string, idx int) Case {
 				cell = "j:" + hx("zz")
 			default:
 				cell = c17CellTok(rng, c17Values[rng.Intn(len(c17Values))])
+				if huge && rng.Intn(3) == 0 {
+					// whole float64 values beyond the int64 range: an aggregate over them is still an ordinary number to the predicate
+					cell = c17Ftok([]float64{1e19, 1.5e19, 1e300}[rng.Intn(3)])
+				}
 			}
 			op = append(op, hx(f), cell)
 		}
